@@ -51,7 +51,45 @@ _ANTI_DO = dict(
             ('MIN_REF_COVERAGE', 'Q'), ('get_antitargets', 'F:Z,Z,Q,Z>Z', 'get_fn')],
     ret='Z')
 
+# do_target, the whole body.  The statement list is checked here (two assignments, three ifs, `return tgt_arr`) and the
+# fragment anchored on its first and its last-but-one statement whatever their tests are, so that an edited test is
+# translated (and breaks the proof) instead of making the fragment unfindable.
+def _target_anchors():
+    fn = _func('cnvlib/target.py', 'do_target')
+    body = [s for s in fn.body if not (isinstance(s, ast.Expr) and isinstance(s.value, ast.Constant))]
+    if [type(s) for s in body] != [ast.Assign, ast.Assign, ast.If, ast.If, ast.If, ast.Return]:
+        raise ValueError('do_target is no longer two assignments, three ifs and a return')
+    if ast.unparse(body[-1]) != 'return tgt_arr':
+        raise ValueError('do_target no longer returns tgt_arr')
+    return ast.unparse(body[0]).split('\n')[0], ast.unparse(body[-2]).split('\n')[0]
+
+
+def _target_flow():
+    try:
+        first, last = _target_anchors()
+    except Exception as exc:   # noqa -- fail closed
+        first = last = '<do_target no longer has the expected shape: %s>' % exc
+    return dict(
+        name='do_target', coq='fn_do_target', py_params=['bait_arr', 'annotate', 'do_short_names', 'do_split', 'avg_size'],
+        params=[('bait_arr', 'Z', 'bait_id'), ('annotate', 'Z', 'annotate_id'), ('do_short_names', 'B'), ('do_split', 'B'),
+                ('avg_size', 'Q'),
+                ('.copy', 'F:Z>Z', 'copy_fn'),
+                ('tgt_arr[tgt_arr.start != tgt_arr.end]', 'Z', 'nonzero_id'),
+                ('.subdivide', 'F:Z,Q,Z>Z', 'subdivide_fn'),
+                ('tabio.read_auto', 'F:Z>Z', 'read_fn'),
+                ('antitarget.compare_chrom_names', 'F:Z,Z>B', 'names_raise'),
+                ('len', 'F:Z>Z', 'len_fn'),
+                ('list', 'F:Z>Z', 'list_fn'),
+                ('.into_ranges', 'F:Z,Z,S,S>Z', 'into_fn'),
+                ('shorten_labels', 'F:Z>Z', 'shorten_fn'),
+                ("tgt_arr['gene']", 'Z', 'genes_id')],
+        raising_calls=['antitarget.compare_chrom_names'], init=[('raised__', 'B', 'false')],
+        fragment=dict(first=first, last=last),
+        returns=['tgt_arr', "tgt_arr['gene']", 'raised__'], ret=['Z', 'Z', 'B'])
+
+
 MODULES = {
+    'FnTargetFlow': ('cnvlib/target.py', [_target_flow()]),
     'FnAntiFlow': ('cnvlib/antitarget.py', [_ANTI_FLOW]),
     'FnAntiDo': ('cnvlib/antitarget.py', [_ANTI_DO]),
 }
